@@ -112,3 +112,106 @@ def normal_range(eng, v, lo=1e-300, hi=1e300):
         return
     e = v.e
     eng.assume(z3.Or(e == 0, z3.And(e >= lo, e <= hi), z3.And(e <= -lo, e >= -hi)))
+
+
+DEFAULT_STUBS = {"*": {"logging": LoggingModuleStub(), "logger": LoggerStub(), "Timer": TimerStub}}
+
+
+def stubs(**per_module):
+    s = {"*": dict(DEFAULT_STUBS["*"])}
+    for k, v in per_module.items():
+        s[k] = v
+    return s
+
+
+class RngStub:
+    """The legacy global NumPy generator as a symbolic source: every draw is a fresh symbolic value in the
+    documented range; seed(s) is recorded.  Only this API exists inside rebound code (C07 discipline)."""
+
+    def __init__(self, eng):
+        self.eng = eng
+        self.state = ("unseeded",)
+        self.draws = []
+
+    def seed(self, s=None):
+        self.state = ("seeded", s)
+        self.draws.append(("seed", s))
+
+    def _arr(self, shape, mk):
+        if shape is None or shape == ():
+            return mk()
+        shape = (shape,) if isinstance(shape, (int, np.integer)) else tuple(int(s) for s in shape)
+        vals = np.empty(shape, dtype=object)
+        for idx in np.ndindex(shape):
+            vals[idx] = mk()
+        if self.eng.concrete:
+            return vals.astype(float)
+        return vals.view(SymArray)
+
+    def uniform(self, low=0.0, high=1.0, size=None):
+        import z3
+        eng = self.eng
+        lo = np.broadcast_to(np.asarray(_raw(low), dtype=object), size if size is not None else np.shape(_raw(low)))
+        hi = np.broadcast_to(np.asarray(_raw(high), dtype=object), size if size is not None else np.shape(_raw(high)))
+        out = np.empty(lo.shape, dtype=object)
+        for idx in np.ndindex(lo.shape):
+            v = eng.fresh_real("unif")
+            if not eng.concrete:
+                from symnp import lift
+                eng.assume(z3.And(v.e >= lift(lo[idx]), v.e < lift(hi[idx])))
+            out[idx] = v
+        self.draws.append(("uniform", int(out.size)))
+        return out.astype(float) if eng.concrete else out.view(SymArray)
+
+    def rand(self, *shape):
+        import z3
+        eng = self.eng
+
+        def mk():
+            v = eng.fresh_real("rand")
+            if not eng.concrete:
+                eng.assume(z3.And(v.e >= 0, v.e < 1))
+            return v
+        self.draws.append(("rand", shape))
+        return self._arr(shape if shape else None, mk)
+
+    def normal(self, loc=0.0, scale=1.0, size=None):
+        eng = self.eng
+        self.draws.append(("normal", size))
+        return self._arr(size, lambda: eng.fresh_real("norm")) * scale + loc
+
+    def randn(self, *shape):
+        return self.normal(size=shape if shape else None)
+
+    def randint(self, low, high=None, size=None, dtype=int):
+        """forks over every value (symbolic int realised), as the shapes/entries feed integer matrices"""
+        eng = self.eng
+        if high is None:
+            low, high = 0, low
+        lo, hi = int(low), int(high)
+        self.draws.append(("randint", lo, hi, size))
+        if size is None:
+            return eng.choose_int("rint", lo, hi - 1)
+        shape = (size,) if isinstance(size, (int, np.integer)) else tuple(size)
+        out = np.empty(shape, dtype=int)
+        for idx in np.ndindex(shape):
+            out[idx] = eng.choose_int("rint", lo, hi - 1)
+        return out
+
+    def permutation(self, x):
+        eng = self.eng
+        if isinstance(x, (int, np.integer)):
+            items = list(range(int(x)))
+            arr = None
+        else:
+            arr = x
+            items = list(range(len(x)))
+        perm = []
+        idx = list(items)
+        while idx:
+            j = eng.choose_int("perm", 0, len(idx) - 1) if len(idx) > 1 else 0
+            perm.append(idx.pop(j))
+        self.draws.append(("permutation", len(items)))
+        if arr is None:
+            return np.array(perm)
+        return arr[perm]
